@@ -578,14 +578,97 @@ func c02GhostCase(c *Case, variant int) {
 	c.Note("known:" + c02GhostID)
 }
 
+// corpus (fifth wave): an execution keeps the snapshot it read while two of four objects are deleted
+// and another reader takes the binding's snapshot; one static namespace = one informer.
+func c02HeldCorpusCase(c *Case) {
+	kem.DefaultSyncTime = time.Millisecond
+	e := &c02Env{c: c, cl: newC02Cluster(c.Idx)}
+	defer e.setActive(nil)
+	c.Op(c02RidLine(), "ok")
+	e.op(e.cl.nsSet(1, 0))
+	for n := 1; n <= 4; n++ {
+		e.op(e.cl.set(c02Key{1, 1, n}, c02Val{a: n, b: 9 - n}))
+	}
+	spec := c02MonSpec{id: 1, kind: 1, keep: true, flt: 0, nss: []int{1}}
+	m := e.newMon(spec)
+	defer e.stop(m)
+	if !e.add(m) {
+		return
+	}
+	e.start(m)
+	e.setActive([]*c02Mon{m})
+	if !e.snap(m) {
+		return
+	}
+	held := e.hold(m)
+	e.op(e.cl.del(c02Key{1, 1, 1}))
+	e.op(e.cl.del(c02Key{1, 1, 2}))
+	ok := e.snap(m)
+	if held != nil && c.Inconcl == "" {
+		ok = e.lookAgain(held) && ok
+	}
+	if ok {
+		// and once more after a creation and a further read
+		held = e.hold(m)
+		e.op(e.cl.set(c02Key{1, 1, 1}, c02Val{a: 7, b: 7}))
+		e.snap(m)
+		if held != nil && c.Inconcl == "" {
+			e.lookAgain(held)
+		}
+	}
+	c.Nontrivial = true
+	c.Note("corpus:held-snapshot")
+	c.Desc = "corpus: a reader keeps its snapshot while objects are deleted / created and another reader reads the binding"
+}
+
+// corpus (fifth wave): jqFilters with two object outputs, with a scalar before an object, with no
+// output — Synchronization snapshot and a snapshot after a watch event.
+func c02FilterCorpusCase(c *Case, variant int) {
+	kem.DefaultSyncTime = time.Millisecond
+	e := &c02Env{c: c, cl: newC02Cluster(c.Idx)}
+	defer e.setActive(nil)
+	c.Op(c02RidLine(), "ok")
+	e.op(e.cl.nsSet(1, 0))
+	e.op(e.cl.set(c02Key{1, 1, 1}, c02Val{a: 3, b: 4, lbl: 1}))
+	objA := c02Term{kind: "f", f: c02ObjF("a", c02Path("data", "a"), "l", c02Path("metadata", "labels", "sel"))}
+	objB := c02Term{kind: "f", f: c02ObjF("a", c02Path("data", "b"), "b", c02Path("data", "b"))}
+	progs := []*c02Prog{
+		{terms: []c02Term{objA, objB}},
+		{terms: []c02Term{{kind: "f", f: c02Path("data", "a")}, objB}},
+		{terms: []c02Term{{kind: "empty"}}},
+		{terms: []c02Term{{kind: "iter", path: []string{"data"}}, objA, {kind: "empty"}}},
+	}
+	spec := c02MonSpec{id: 1, kind: 1, keep: variant%2 == 0, flt: 1, prog: progs[variant%len(progs)]}
+	m := e.newMon(spec)
+	defer e.stop(m)
+	if !e.add(m) {
+		return
+	}
+	e.start(m)
+	e.setActive([]*c02Mon{m})
+	if e.snap(m) {
+		e.op(e.cl.set(c02Key{1, 1, 2}, c02Val{a: 5, b: 6}))
+		e.op(e.cl.set(c02Key{1, 1, 1}, c02Val{a: 3, b: 8, lbl: 1}))
+		e.snap(m)
+	}
+	c.Nontrivial = true
+	c.Note("corpus:jq-outputs")
+	c.Desc = "corpus: jqFilter " + spec.prog.text()
+}
+
 func runC02(r *Run) {
 	r.CaseTimeout = 150 * time.Second
-	r.Rule = "real kubeEventsManager/monitor/resourceInformer over kube-client/fake (list/watch made selector-faithful by harness reactors; one CRD group per case so that the process-wide informer factory store is not shared): random binding selectors (all namespaces / namespace.nameSelector / namespace.labelSelector, nameSelector, labelSelector, fieldSelector, keepFullObjectsInMemory, jqFilter / FilterFunc / none) x random histories over 4 namespaces x 4 names x 2 kinds (create, modify inside/outside the filter projection, label flips, delete, delete+recreate, namespace create / relabel / delete with its objects, safe changes between AddMonitor and StartMonitor, restart = second manager on the same cluster); snapshots observed at the Synchronization point and after every burst. Multi cases: 2-5 bindings (monitors) over one cluster, on one shared or on separate managers, whose selectors are derived from one base so that their informers fall on the same process-wide shared informer (same kind / namespace / label / field selector), started and stopped (StopMonitor) at random points of the history, namespaces leaving a namespace.labelSelector binding while a sibling still watches them; every live monitor is observed after every step. matchNames lists carry repeated entries at arbitrary positions in about a third of the lists. Exec cases: real HookConfig.LoadAndValidate + HookController.UpdateSnapshots at Synchronization / Event / Schedule / Group / admission points with the cluster changed between the reads of one execution. Non-trivial: >= 2 creations and >= 2 further changes (monitor cases) or >= 2 contexts / an include list of >= 2 names (exec cases); distinct = distinct op-line sequences."
+	r.Rule = "real kubeEventsManager/monitor/resourceInformer over kube-client/fake (list/watch made selector-faithful by harness reactors; one CRD group per case so that the process-wide informer factory store is not shared): random binding selectors (all namespaces / namespace.nameSelector / namespace.labelSelector, nameSelector, labelSelector, fieldSelector, keepFullObjectsInMemory, jqFilter / FilterFunc / none) x random histories over 4 namespaces x 4 names x 2 kinds (create, modify inside/outside the filter projection, label flips, delete, delete+recreate, namespace create / relabel / delete with its objects, safe changes between AddMonitor and StartMonitor, restart = second manager on the same cluster); snapshots observed at the Synchronization point and after every burst. Multi cases: 2-5 bindings (monitors) over one cluster, on one shared or on separate managers, whose selectors are derived from one base so that their informers fall on the same process-wide shared informer (same kind / namespace / label / field selector), started and stopped (StopMonitor) at random points of the history, namespaces leaving a namespace.labelSelector binding while a sibling still watches them; every live monitor is observed after every step. matchNames lists carry repeated entries at arbitrary positions in about a third of the lists. jqFilter programs (monitor, multi, exec and half of the conc cases): 12% the classic {a: .data.a}, 33% one expression (object construction with keys from a/b/l/x over .data.a/.data.b/.data.c(missing)/.data/.metadata.labels(.sel)/literals, scalars, arrays, null), 40% two to four top-level terms joined by `,` (object-valued ones with overlapping keys, scalars / arrays / null in between, `empty`, `.data[]`), 15% programs with no output or with non-object outputs only; the AST goes to the Lean side next to the text. Held snapshots: before 45% of the bursts (40% in multi cases) an execution reads the binding's snapshot and keeps the returned list, the cluster changes, the other readers take their snapshots, then the first reader looks at its list again. Exec cases: real HookConfig.LoadAndValidate + HookController.UpdateSnapshots at Synchronization / Event / Schedule / Group / admission points with the cluster changed between the reads of one execution; the contexts of the previous execution are kept and rendered again after the next execution has read the same bindings. Non-trivial: >= 2 creations and >= 2 further changes (monitor cases) or >= 2 contexts / an include list of >= 2 names (exec cases); distinct = distinct op-line sequences."
 	r.One(0, func(c *Case, _ *Rng) { c02DupNamesCase(c, false) })
 	r.One(1, func(c *Case, _ *Rng) { c02DupNamesCase(c, true) })
 	for v := 0; v < 3; v++ {
 		v := v
 		r.One(2+v, func(c *Case, _ *Rng) { c02GhostCase(c, v) })
+	}
+	r.One(5, func(c *Case, _ *Rng) { c02HeldCorpusCase(c) })
+	for v := 0; v < 4; v++ {
+		v := v
+		r.One(6+v, func(c *Case, _ *Rng) { c02FilterCorpusCase(c, v) })
 	}
 	n := r.N(400, 6000)
 	r.Cases(100, n, 0, func(c *Case, rng *Rng) {
